@@ -83,6 +83,9 @@ class AvroWriter(AbstractWriter):
         self.writer.flush()
 
     def close(self) -> None:
+        if self.fp and self.writer:
+            # write out the records that are still buffered in the current Avro block
+            self.writer.flush()
         if self.fp and not is_stdout(self.fp):
             self.fp.close()
         self.fp = None
